@@ -179,6 +179,53 @@ def T_lit_whitespace(n):
     return " " * n + "4" + "\n" * n + "+ 4", 8
 
 
+# ---- several constant pools of size ~n in one compilation: siblings of every function kind next to a program-level pool that reuses
+# some of their values (an index resolved against the wrong pool alters operands silently)
+def _pool_sum(base, n):
+    return sum(base + i for i in range(n))
+
+
+def _sibling_pools(n, mk_a, mk_b):
+    body_a = "var t = 0; " + " ".join("t += %d;" % (1000 + i) for i in range(n)) + " return t;"
+    body_b = "var u = 0; " + " ".join("u += %d;" % (5000 + 2 * i) for i in reversed(range(n))) + " return u;"
+    prog = "var s = 0; " + " ".join("s += %d;" % (i + 1) for i in range(n)) + " " + " ".join("s += %d;" % (1000 + n - 1 - i) for i in range(n)) + " " + " ".join("s += %d;" % (5000 + 2 * i) for i in range(0, n, 3))
+    src = mk_a(body_a) + "\n" + mk_b(body_b) + "\n" + prog + "\nfa() + 3 * fb() + 7 * s"
+    want = _pool_sum(1000, n) + 3 * sum(5000 + 2 * i for i in range(n)) + 7 * (n * (n + 1) // 2 + _pool_sum(1000, n) + sum(5000 + 2 * i for i in range(0, n, 3)))
+    return src, want
+
+
+def T_pools_arrow_arrow(n):
+    return _sibling_pools(n, lambda b: "var fa = () => { " + b + " };", lambda b: "var fb = () => { " + b + " };")
+
+
+def T_pools_arrow_function(n):
+    return _sibling_pools(n, lambda b: "var fa = () => { " + b + " };", lambda b: "function fb() { " + b + " }")
+
+
+def T_pools_function_arrow(n):
+    return _sibling_pools(n, lambda b: "function fa() { " + b + " }", lambda b: "var fb = (x) => { " + b + " };")
+
+
+def T_pools_method_getter(n):
+    return _sibling_pools(n, lambda b: "var oa = {m() { " + b + " }}; function fa() { return oa.m(); }", lambda b: "var ob = {get g() { " + b + " }}; function fb() { return ob.g; }")
+
+
+def T_pools_nested_arrow_in_function(n):
+    return _sibling_pools(n, lambda b: "function fa() { var inner = () => { " + b + " }; return inner(); }", lambda b: "var fb = function () { return (() => { " + b + " })(); };")
+
+
+def T_pools_arrow_in_arrow(n):
+    return _sibling_pools(n, lambda b: "var fa = () => { var k = () => { " + b + " }; return k(); };", lambda b: "var fb = () => (() => { " + b + " })();")
+
+
+def T_pools_newfunction_eval(n):
+    return _sibling_pools(n, lambda b: "var fa = new Function(%r);" % b, lambda b: "var fb = function () { return (0, eval)(%r); };" % ("(function () { " + b + " })()"))
+
+
+def T_pools_callback_arrows(n):
+    return _sibling_pools(n, lambda b: "function fa() { return [0].map(() => { " + b + " })[0]; }", lambda b: "function fb() { var r; [0].forEach(() => { r = (() => { " + b + " })(); }); return r; }")
+
+
 def T_and_chain(n):
     return " && ".join(["1"] * n) + " && 7", 7
 
@@ -422,6 +469,8 @@ def main(ctx):
             ns += [6552, 6553, 6554, 6560, 7000] if name not in ("and_chain", "or_chain", "ternary_chain") else [9362, 9363, 10922, 10923, 13107, 16384]
             if name.startswith("bigfn_via_"):
                 ns += [3270, 3275, 3276, 3277, 3280, 3300, 4000, 6000]     # around bytecode offset 32768
+        if name.startswith("pools_"):
+            ns = [1, 2, 30, 60, 62, 63, 64, 65, 66, 70, 100, 127, 128, 129, 200, 250, 253, 254, 255, 256, 300]     # pool sizes (three pools per program)
         if name.startswith("lit_"):
             ns += [15, 16, 17, 18, 19, 20, 21, 22, 25, 26, 53, 54, 308, 309, 310, 323, 324, 325, 400, 1074, 1075, 4299, 4300, 4301, 5000, 10000, 70000]   # double / host integer-conversion boundaries
         ns += [rng.randint(2, 300), rng.randint(300, 5000)]
